@@ -293,6 +293,60 @@ pub fn run(ctx: &mut Ctx) {
         }
     }
 
+    // ---- sub_ontology builds its result through the same builder: the result must be referentially closed
+    for n in 3..=4usize {
+        let dags = crate::space::all_dags(n);
+        ctx.space(&format!("sub_ontology/D{n}/closure"), &format!("{} labelled DAGs (one gene on every term) x every root x every leaf and ordered leaf pair: sub_ontology succeeds exactly when the leaves are below root and its result can be walked through the whole read API", dags.len()));
+        for d in &dags {
+            if !ctx.take() {
+                continue;
+            }
+            ctx.state();
+            if d.has_diamond() {
+                ctx.nontrivial();
+            }
+            let mut f = Facts::from_dag(d, &[2, 3, 4, 5, 6, 7]);
+            let ids: Vec<u32> = f.terms.iter().map(|t| t.id).collect();
+            for (i, t) in ids.iter().enumerate() {
+                f.anns.push(Facts::ann(Kind::Gene, 10 + i as u32, &format!("G{i}"), Some(*t)));
+                f.anns.push(Facts::ann(Kind::Omim, 20 + i as u32 % 2, &format!("D{}", i % 2), Some(*t)));
+            }
+            let r = RefOnt::derive(&f);
+            ctx.transitions(f.n_steps());
+            let Ok(src) = crate::drive::build(&f, Mode::Minimal) else { continue };
+            for &root in &ids {
+                let mut collections: Vec<Vec<u32>> = ids.iter().map(|a| vec![*a]).collect();
+                for a in &ids {
+                    for b in &ids {
+                        if a < b {
+                            collections.push(vec![*a, *b]);
+                        }
+                    }
+                }
+                for leaves in collections {
+                    ctx.exec();
+                    ctx.validated();
+                    ctx.transitions(1);
+                    let valid = leaves.iter().all(|l| *l == root || r.terms[l].ancestors.contains(&root));
+                    let res = guard(|| src.sub_ontology(src.hpo(root).unwrap(), leaves.iter().map(|l| src.hpo(*l).unwrap()).collect::<Vec<_>>()).map_err(|e| e.to_string()));
+                    let case = || json!({"source": f.to_json(), "root": root, "leaves": leaves, "rust": f.to_rust(false)});
+                    match (res, valid) {
+                        (Ok(Ok(sub)), true) => {
+                            if let Err(i) = Obs::of(&sub) {
+                                ctx.violation(&i.site, "[sub_ontology] result is not referentially closed (read API panics or is inconsistent)", json!({"case": case(), "observed": i.what}));
+                            }
+                        }
+                        (Ok(Err(_)), false) => {}
+                        (Ok(Err(e)), true) => ctx.violation("Ontology::sub_ontology", "[sub_ontology] fails although every leaf is root or below root", json!({"case": case(), "observed": e})),
+                        (Ok(Ok(_)), false) => ctx.violation("Ontology::sub_ontology", "[sub_ontology] accepted although a leaf is not below root", json!({"case": case()})),
+                        (Err(p), _) => ctx.violation("Ontology::sub_ontology", "[sub_ontology] panics", json!({"case": case(), "observed": p})),
+                    }
+                }
+            }
+            ctx.sample(|| json!({"dag": d.describe(), "ids": ids}));
+        }
+    }
+
     // ---- LooseCollection: repeated new_term is documented to do nothing
     ctx.space("histories/new_term-repeats", "all sequences of length <= 5 over new_term(id in {1,2,3}, name in {a,b}): the first call for an id wins, every id is stored once");
     let nt_alpha: Vec<(u32, &str)> = vec![(1, "a"), (1, "b"), (2, "a"), (2, "b"), (3, "a")];
